@@ -10,7 +10,8 @@ name = sys.argv[1]
 prop, x = name[:3], name[3:]
 checks = sys.argv[2].split(",") if len(sys.argv) > 2 else [prop]
 src = "/tmp/mut/%s/%s" % (prop, x)
-dst = "/verif/seeded/%s" % name
+V = os.path.dirname(os.path.dirname(os.path.abspath(__file__)))
+dst = "%s/seeded/%s" % (V, name)
 os.makedirs(dst, exist_ok=True)
 for f in os.listdir(src):
     if f.endswith(".diff") or f.endswith("_test.go") or f.endswith(".sh") or f.endswith(".go"):
@@ -33,7 +34,7 @@ if not ok:
     print("verification incomplete for", name, {k: ver.get(k) for k in ("applies", "builds", "existing_tests_pass", "demo_fails_with_patch", "demo_passes_without_patch")})
     sys.exit(1)
 det = {}
-r = subprocess.run(["python3", "/verif/tools/trymut.py", src, name + "_now", ",".join(checks), "--noverify"], capture_output=True, text=True)
+r = subprocess.run(["python3", os.path.join(V, "tools/trymut.py"), src, name + "_now", ",".join(checks), "--noverify"], capture_output=True, text=True)
 now = json.load(open("/tmp/mw/results/%s_now.json" % name))
 for c, res in now.get("checks", {}).items():
     det[c] = {"exit": res["exit"], "first_line": (res["lines"][0][:400] if res["lines"] else "")}
